@@ -230,6 +230,9 @@ func genUUID(r *vh.RNG) FCase {
 	if form == 3 {
 		ops = append(ops, "urn-prefix-changed", "urn-colon-replaced")
 	}
+	if form == 2 {
+		ops = append(ops, "brace-replaced", "brace-replaced")
+	}
 	c.Op = vh.Pick(r, ops)
 	switch c.Op {
 	case "hex-to-nonhex":
@@ -246,15 +249,10 @@ func genUUID(r *vh.RNG) FCase {
 		c.Value = setAt(v, vh.Pick(r, []int{0, 1, 2, 4, 5, 6, 7}), vh.Pick(r, []byte("xqz0")))
 	case "urn-colon-replaced":
 		c.Value = setAt(v, vh.Pick(r, []int{3, 8}), vh.Pick(r, []byte(";-_a")))
+	case "brace-replaced":
+		c.Value = setAt(v, vh.Pick(r, []int{0, 37}), vh.Pick(r, []byte("XY[]()0a \n")))
 	}
 	return c
-}
-
-// uuidBraceWitness: the 38-byte form with one brace replaced (known finding).
-func uuidBraceWitness(r *vh.RNG) FCase {
-	u := "{" + genUUID36(r) + "}"
-	p := vh.Pick(r, []int{0, 37})
-	return FCase{Format: "uuid", Expect: -1, Base: u, Op: "brace-replaced", Value: setAt(u, p, vh.Pick(r, []byte("XY[]()0a ")))}
 }
 
 // ---------- email ----------
